@@ -28,6 +28,19 @@ def groups(n, seed):
         runs = [dict({"prob": ps, "params": pk, "run": "A", "twin": "C11", "policy": "fresh"}, **extra),
                 dict({"prob": ps, "params": pk, "run": "B", "twin": "C11", "policy": "memo"}, **extra)]
         gs.append({"tag": "C11", "runs": runs})
+    # the one solve path that asks the step function for its generalised Jacobian (Globalized Newton's merit gradient): equality
+    # rows only (the callback's matrix reaches the iterate unwrapped), bounded variables (non-empty active sets), no scaling
+    from pygradflow.params import NewtonType
+    for i in range(max(6, n // 9)):
+        kinds = [["eq0"], ["eq"], ["eq", "eq0"]][i % 3]
+        nv = int(rng.integers(3, 6))
+        ps = ("convex_qp", int(rng.integers(0, 2 ** 31)), nv, len(kinds),
+              {"fmt": fmts[i % 3], "row_kinds": kinds, "var_kinds": [["boxed", "lower", "upper"][(i + j) % 3] for j in range(nv)]})
+        pk = gen.random_params(rng, iteration_limit=15, newton_type=NewtonType.Globalized, step_solver_type=gen.STEPSOLVERS[i % 4],
+                               lamb_init=float(10.0 ** rng.uniform(-3, 0)))
+        gs.append({"tag": "C11.globalized", "runs": [
+            {"prob": ps, "params": pk, "run": "A", "twin": "C11", "policy": "fresh", "x0_on_bounds": bool(i % 2)},
+            {"prob": ps, "params": pk, "run": "B", "twin": "C11", "policy": "memo", "x0_on_bounds": bool(i % 2)}]})
     return gs
 
 
